@@ -446,6 +446,9 @@ func init() {
 			{Name: "GZ-MULTISTREAM", What: "no function of package bgzf switches the gzip reader's multistream mode off (who-may-call, expected 0; canary keeps the rule alive)", Floor: 40, Run: ruleMultistream("bgzf"),
 				Canary: func(cc *Ctx, r *Rep) { ruleMultistream("gzc")(cc, r, "quick") }, WantFail: []string{"gzc.Bad#multistream"}, WantPassMin: 1},
 			{Name: "PATH-BAMLEN", What: "bam.newBuffer returns the errors of both reads; io.EOF inside a record is not a clean end", Floor: 1, Run: ruleBamLen},
+			{Name: "MEMBER-ACCEPT", What: "bgzf nextBlockAt starts the decompression of every member readMember read without error: no return in between (shared with C01; added after eighth-round seed C01-j)", Floor: 1, Run: ruleMemberAccept},
+			{Name: "ITER-ERR", What: "bam.Iterator's error is assigned by Next only (and when the Iterator is made): Close reports what stopped the iteration (added after eighth-round seed C10-j: Close overwrote it with SetChunk(nil)'s nil)", Floor: 2, Run: ruleIterErr},
+			{Name: "ERR-MERGER", What: "bam.Merger: every source's read error is tested, returned or kept, and Read returns a kept error before anything else – a damaged source is not an exhausted one (shared with C18; under C10 since eighth-round seed C10-i)", Floor: 4, Run: ruleErrMerger},
 			{Name: "LEN-EXACT", What: "bam.newBuffer hands the decoder a buffer of exactly block_size bytes and the count read is compared with it: a body cut short (also at a BGZF block boundary, where the stream ends cleanly) is never returned as a record (shared with C05; under C10 since a fourth-round seed)", Floor: 3, Run: ruleLenExact},
 			{Name: "ERR-LATCH", What: "bam.Reader.Read consults the record buffer's sticky error before returning a record", Floor: 1, Run: ruleStickyErr(bamLatch)},
 			{Name: "ERR-1", What: "no error returned by a call in bgzf or bam is dropped (exemptions named with their reason)", Floor: 60, Run: ruleNoDroppedError([]string{"bgzf", "bam"}, errExempt)},
